@@ -12,7 +12,8 @@ def comb_cfg(combs, maxarity, wide):
     return cfg_text(constants={"Combs": set(combs), "MaxArity": maxarity, "Wide": wide, "Emit": True}, invariants=["Laws", "EmitInv"])
 
 
-def run_combinators(ctx, jobs, times_only=False):
+def run_combinators(ctx, jobs, times_only=False, only_if=None):
+    """only_if(mismatch) -> bool: report a mismatch under this property only when the predicate holds (C16: signs of an uninitialised read)"""
     with cf.ThreadPoolExecutor(max_workers=4) as ex:
         fb = ex.submit(build_harness, ["combinators"])
         futs = [ex.submit(run_tlc, ctx, "Combinators", cfg, name, 4) for name, cfg in jobs]
@@ -34,6 +35,9 @@ def run_combinators(ctx, jobs, times_only=False):
         if m["line"] in seen:
             continue
         seen.add(m["line"])
+        if only_if is not None and not only_if(m):
+            ctx.extra["mismatches_left_to_other_properties"] = ctx.extra.get("mismatches_left_to_other_properties", 0) + 1
+            continue
         case = json.loads(vlib.nth_line(allb, m["line"]))
         ctx.violation("%s:%s" % (m["comb"], m["what"]), {"replay_kind": "combinators", "case": case, "mismatch": m, "seed": ctx.seed, "times_only": times_only},
                       "%s case #%d %s: %s; specification predicts %s, implementation returned %s (input values %s, timestamp map %s)" % (
